@@ -651,13 +651,23 @@ def r09f(ck, prog):
     same kind (index + 28), for the border column and inside the column loop"""
     F = prog.fn("set_gap_penalties_n")
     stores = {27: [], 28: [], 29: []}
-    for a in F.body.find("BinaryOperator"):
-        if a.d["op"] != "=":
-            continue
-        l = a.kids[0].strip()
-        if l.k == "ArraySubscriptExpr" and l.kids[1].cv in stores and l.ty == "float":
-            srcs = {x.kids[1].cv for x in a.kids[1].find("ArraySubscriptExpr") if x.kids[1].cv is not None}
-            stores[l.kids[1].cv].append((a, srcs))
+
+    def collect(G, anchor):
+        """stores in G; `anchor` is the node of F that stands for them on F's flow graph (the store itself, or the call of the
+        private helper that contains it)"""
+        for a in G.body.find("BinaryOperator"):
+            if a.d["op"] != "=":
+                continue
+            l = a.kids[0].strip()
+            if l.k == "ArraySubscriptExpr" and l.kids[1].cv in stores and l.ty == "float":
+                srcs = {x.kids[1].cv for x in a.kids[1].find("ArraySubscriptExpr") if x.kids[1].cv is not None}
+                stores[l.kids[1].cv].append((anchor or a, srcs, a))
+    collect(F, None)
+    for c in F.body.calls():
+        H = prog.functions.get(c.callee) if c.callee else None
+        if H is not None and H.static and H.file == F.file and H is not F:
+            collect(H, c)
+    stores = {k: [(anc, srcs) for anc, srcs, _ in v] for k, v in stores.items()}
     n = 0
     for col, lst in stores.items():
         where = site(prog, lst[0][0] if lst else F, "column %d" % col)
